@@ -27,15 +27,22 @@ _W = {}
 
 
 def _init_worker():
-    common.setup_repo_imports()
-    from . import recog
-    _W['recog'] = recog
-    recog.recognizers()
-    signal.signal(signal.SIGALRM, _on_alarm)
+    try:
+        import warnings
+        warnings.filterwarnings('ignore')
+        common.setup_repo_imports()
+        from . import recog
+        _W['recog'] = recog
+        recog.recognizers()
+        signal.signal(signal.SIGALRM, _on_alarm)
+    except BaseException as e:     # a raising initializer makes Pool respawn workers forever
+        _W['init_error'] = '%s: %s' % (type(e).__name__, e)
 
 
 def _run_chunk(args):
     idxs, tasks, timeout = args
+    if 'init_error' in _W:
+        raise common.InfraError('pipeline worker failed to initialise: ' + _W['init_error'])
     recog = _W['recog']
     out = []
     for i, (rec, mt, cul, q, ref) in zip(idxs, tasks):
